@@ -303,6 +303,9 @@ func (c *Client) flushBuf(ctx context.Context, b *proto.Buffer) error {
 
 func (c *Client) flush(ctx context.Context) error {
 	if err := ctx.Err(); err != nil {
+		// Pending output belongs to the call that is being abandoned and
+		// must not precede the next request.
+		c.writer.Reset()
 		return errors.Wrap(err, "context")
 	}
 	if deadline, ok := ctx.Deadline(); ok {
